@@ -18,6 +18,9 @@ pub fn run_template(h: &mut Harness, ch: &mut Choices) {
     if v2 && h.prof.writers && ch.flag(1, 4) {
         return writer_links_target(h, ch);
     }
+    if crate::choice::dv() >= 4 && h.prof.binds && h.prof.grab_inner && ch.flag(1, 6) {
+        return consumer_of_dead_inner(h, ch);
+    }
     let n = if h.prof.subscriptions { 5 } else { 4 } + if v2 { 1 } else { 0 };
     match ch.choose(n) {
         0 => shared_source(h, ch),
@@ -401,4 +404,76 @@ fn writer_links_target(h: &mut Harness, ch: &mut Choices) {
         h.act_stabilise();
         h.after_action("stabilise");
     }
+}
+
+/// decoder 4: a node created by a bind closure is handed out; top-level consumers are built on it
+/// (maps, a bind over it that returns it or something built on it, both at once), observed,
+/// unobserved; the bind re-runs while nobody looks, so that the consumers find a dead input when
+/// they are observed again. They must read ObservingInvalid; nothing may panic.
+fn consumer_of_dead_inner(h: &mut Harness, ch: &mut Choices) {
+    let xv = some!(h.act_new_var(gen_value(ch)));
+    let x = h.vars[xv].tag;
+    let yv = some!(h.act_new_var(gen_value(ch)));
+    let y = h.vars[yv].tag;
+    let fresh = |ch: &mut Choices| match ch.choose(4) {
+        0 => Expr::MapCap(ch.byte() % 4, Box::new(Expr::Ref(y))),
+        1 => Expr::Map(ch.byte() % 8, Box::new(Expr::Lhs)),
+        2 if h_inner_vars() => Expr::NewVar(1),
+        _ => Expr::MapN(ch.byte() % 10, vec![Expr::Ref(y), Expr::Cap]),
+    };
+    let arms = vec![fresh(ch), fresh(ch)];
+    let b1 = some!(h.act_new_node(Expr::Bind(Box::new(Expr::Ref(x)), Rc::new(arms))));
+    let ob1 = some!(h.act_observe(b1));
+    h.act_stabilise();
+    h.after_action("stabilise");
+    let wi = some!(h.act_grab_inner(ch.byte() as usize));
+    let w = tag_of(h, wi);
+    let over = |ch: &mut Choices| {
+        let arm = |ch: &mut Choices| match ch.choose(3) {
+            0 => Expr::Lhs,
+            1 => Expr::Map(ch.byte() % 8, Box::new(Expr::Lhs)),
+            _ => Expr::MapN(ch.byte() % 10, vec![Expr::Lhs, Expr::Ref(y)]),
+        };
+        // a bind over the handed-out node, returning it or a node built on it (a bind over
+        // something else that returns the handed-out node cannot be generated soundly: whether
+        // its closure runs while the defining bind is needed is decided at run time)
+        Expr::Bind(Box::new(Expr::Ref(w)), Rc::new(vec![arm(ch), arm(ch)]))
+    };
+    let consumer = match ch.choose(5) {
+        0 => Expr::MapN(ch.byte() % 10, vec![over(ch), Expr::Ref(w)]),
+        1 => Expr::MapN(ch.byte() % 10, vec![Expr::Ref(w), over(ch)]),
+        2 => Expr::Map(ch.byte() % 8, Box::new(Expr::Ref(w))),
+        3 => Expr::Zip(Box::new(over(ch)), Box::new(Expr::Map(ch.byte() % 8, Box::new(Expr::Ref(w))))),
+        _ => over(ch),
+    };
+    let c = some!(h.act_new_node(consumer));
+    let oc = if ch.flag(3, 4) { h.act_observe(c) } else { None };
+    if oc.is_some() {
+        h.act_stabilise();
+        h.after_action("stabilise");
+    }
+    if let Some(oc) = oc {
+        h.act_drop_obs(oc, 0);
+        if ch.flag(1, 2) {
+            h.act_stabilise();
+            h.after_action("stabilise");
+        }
+    }
+    // the bind re-runs (if the written value picks another arm or not: a re-run needs a change)
+    h.act_write(xv, WRITE_OPS[ch.choose(5)], gen_value(ch));
+    if ch.flag(1, 3) {
+        h.act_write(yv, WRITE_OPS[ch.choose(5)], gen_value(ch));
+    }
+    if ch.flag(1, 4) {
+        h.act_drop_obs(ob1, 0);
+    }
+    h.act_stabilise();
+    h.after_action("stabilise");
+    h.act_observe(c);
+    h.act_stabilise();
+    h.after_action("stabilise");
+}
+
+fn h_inner_vars() -> bool {
+    crate::choice::dv() >= 4
 }
